@@ -807,6 +807,9 @@ func GenSchedPlan(seed uint64, idx int, prop string) *plan.SchedPlan {
 	if prop == "C13" && idx%61 == 17 {
 		return genGrowing(p, r)
 	}
+	if prop == "C13" && idx%67 == 23 {
+		return genRepresentations(p, r)
+	}
 	if prop == "C12" {
 		// (plans from FirstUseBase on are all hammer-shaped: the first-use phase of
 		// the check gives each of them a process of its own)
@@ -1067,6 +1070,38 @@ func genGrowing(p *plan.SchedPlan, r *plan.Rand) *plan.SchedPlan {
 		if r.Chance(0.3) {
 			ops = append(ops, plan.SOp{Kind: "eval", Obj: 0, Datum: lens[r.Intn(len(lens))].idx})
 		}
+	}
+	p.Tasks = [][]plan.SOp{ops}
+	return p
+}
+
+// genRepresentations (C13): one object is called on the same kind of record in
+// several representations in turn - json-tagged struct, its pointer,
+// bexpr-tagged struct, plain map; or []interface{} lists whose hit and whose
+// incomparable element sit at different positions. Whatever an object derives
+// from the first datum it sees (a tag name, a field table, a position) and then
+// keeps is wrong for the next representation.
+func genRepresentations(p *plan.SchedPlan, r *plan.Rand) *plan.SchedPlan {
+	if r.Chance(0.5) {
+		base := r.Uint64() % 100000 * 4
+		for k := 0; k < 4; k++ {
+			p.Data = append(p.Data, DatumSpec{Gen: "tagged", Seed: base + uint64(k)})
+		}
+		exprs := []string{`name == "web"`, `Name == "web"`, `port != 80 or name == "db"`, `Port == 443`, `meta.env == "prod"`, `Meta.env == "prod" and "a" in Tags`, `"web" in tags`}
+		p.Objects = []ObjSpec{{Kind: "evaluator", Expr: exprs[r.Intn(len(exprs))]}, {Kind: "evaluator", Expr: exprs[r.Intn(len(exprs))]}}
+		if r.Chance(0.3) {
+			p.Objects[1].Opts.Tag = "json"
+		}
+	} else {
+		for k := 0; k < 5; k++ {
+			p.Data = append(p.Data, DatumSpec{Gen: "inlist", Seed: r.Uint64() % 100000})
+		}
+		p.Objects = []ObjSpec{{Kind: "evaluator", Expr: `"hit" in xs`}, {Kind: "evaluator", Expr: `"hit" not in xs or n == 3`}}
+	}
+	p.Primed = []bool{false, false}
+	var ops []plan.SOp
+	for i, n := 0, r.Range(6, 12); i < n; i++ {
+		ops = append(ops, plan.SOp{Kind: "eval", Obj: r.Intn(2), Datum: r.Intn(len(p.Data))})
 	}
 	p.Tasks = [][]plan.SOp{ops}
 	return p
